@@ -60,11 +60,12 @@ type wsSlot struct {
 	lastOK bool   // validity of the content that encoding carried
 	lastT  bool   // ... and whether its signature 0 carried the flipped bit (and the validity without it)
 	lastP  bool
-	pEdit  int    // value of the "ws-edit" parameter the caller last put into the protected / unprotected map (0: none)
+	pEdit  int // value of the "ws-edit" parameter the caller last put into the protected / unprotected map (0: none)
 	uEdit  int
-	dec    bool   // the object came out of a decoder (it retains raw header bytes, which an edit must discard)
-	tamper bool   // signature 0 currently has a flipped bit
-	pre    bool   // validity before the tamper
+	dec    bool // the object came out of a decoder (it retains raw header bytes, which an edit must discard)
+	pure   bool // decoded and never edited since (only verified / encoded): a received message
+	tamper bool // signature 0 currently has a flipped bit
+	pre    bool // validity before the tamper
 }
 
 func (s *wsSlot) sigs() []*[]byte {
@@ -81,7 +82,17 @@ func (s *wsSlot) sigs() []*[]byte {
 	return out
 }
 
-func checkWorkspace(c wsCase) error {
+// checkWorkspaceFor replays the history. only == "": every violation is returned; otherwise only
+// violations attributed to that property end the run, the others are counted and the history goes on.
+func checkWorkspaceFor(c wsCase, only string) error {
+	fail := func(key, format string, args ...any) error {
+		props := key[:strings.Index(key, ":")]
+		if only == "" || strings.Contains(props, only) {
+			return finding(key, format, args...)
+		}
+		stats.Class("ws/finding-of-another-property-left-to-its-own-run")
+		return nil
+	}
 	var slots []*wsSlot
 	var buffers [][]byte
 	edits := 0
@@ -99,9 +110,18 @@ func checkWorkspace(c wsCase) error {
 			err := s.m.verify(s.spec.Ext(), s.vs...)
 			if (err == nil) != s.valid {
 				if err != nil {
-					return finding("C01:valid-rejected", "after step %d (%+v): object %d (%v) carries valid signatures over its content but Verify fails: %v", step, op, i, s.spec.Kind, err)
+					key := "C01:valid-rejected"
+					if s.pure {
+						key = "C01+C07:valid-rejected" // an untouched received message that is validly signed
+					}
+					if e := fail(key, "after step %d (%+v): object %d (%v) carries valid signatures over its content but Verify fails: %v", step, op, i, s.spec.Kind, err); e != nil {
+						return e
+					}
+					continue
 				}
-				return finding("C03:invalid-accepted", "after step %d (%+v): object %d (%v) verifies although its signed content was changed after signing", step, op, i, s.spec.Kind)
+				if e := fail("C03:invalid-accepted", "after step %d (%+v): object %d (%v) verifies although its signed content was changed after signing", step, op, i, s.spec.Kind); e != nil {
+					return e
+				}
 			}
 		}
 		return nil
@@ -146,12 +166,16 @@ func checkWorkspace(c wsCase) error {
 			}
 			out, err := s.m.marshal()
 			if err != nil {
-				return finding("C01:signed-message-unencodable", "step %d: a completely signed %v cannot be encoded: %v", step, s.spec.Kind, err)
+				if e := fail("C01:signed-message-unencodable", "step %d: a completely signed %v cannot be encoded: %v", step, s.spec.Kind, err); e != nil {
+					return e
+				}
 			}
 			if s.from != nil {
 				want, perr := predictReencode(s.spec.Kind, s.from)
 				if perr == nil && !bytes.Equal(out, want) {
-					return finding("C09:reencode-differs", "step %d: an untouched decoded %v does not re-encode to the predicted bytes\n  in=%x\n got=%x\nwant=%x", step, s.spec.Kind, s.from, out, want)
+					if e := fail("C09:reencode-differs", "step %d: an untouched decoded %v does not re-encode to the predicted bytes\n  in=%x\n got=%x\nwant=%x", step, s.spec.Kind, s.from, out, want); e != nil {
+						return e
+					}
 				}
 				stats.Class("ws/encode-untouched-decoded")
 			}
@@ -159,7 +183,9 @@ func checkWorkspace(c wsCase) error {
 				// what the caller put into the header maps is what gets emitted
 				env, perr := refcose.ParseEnv(s.spec.Kind, out)
 				if perr != nil {
-					return finding("C01:own-output-unparseable", "step %d: %v\n%x", step, perr, out)
+					if e := fail("C01:own-output-unparseable", "step %d: %v\n%x", step, perr, out); e != nil {
+						return e
+					}
 				}
 				look := func(mp *rc.Node) int64 {
 					if mp == nil {
@@ -174,17 +200,21 @@ func checkWorkspace(c wsCase) error {
 					return 0
 				}
 				if s.pEdit != 0 && look(env.ProtMap) != int64(s.pEdit) {
-					return finding("C01:edit-ignored-by-encoder", "step %d: the protected parameter the caller set last (ws-edit = %d) is not in the emitted message\n%x", step, s.pEdit, out)
+					if e := fail("C01:edit-ignored-by-encoder", "step %d: the protected parameter the caller set last (ws-edit = %d) is not in the emitted message\n%x", step, s.pEdit, out); e != nil {
+						return e
+					}
 				}
 				if s.uEdit != 0 && look(env.Unprot) != int64(s.uEdit) {
-					return finding("C01:edit-ignored-by-encoder", "step %d: the unprotected parameter the caller set last (ws-edit = %d) is not in the emitted message\n%x", step, s.uEdit, out)
+					if e := fail("C01:edit-ignored-by-encoder", "step %d: the unprotected parameter the caller set last (ws-edit = %d) is not in the emitted message\n%x", step, s.uEdit, out); e != nil {
+						return e
+					}
 				}
 				stats.Class("ws/encode-after-edit")
 			}
 			s.last, s.lastOK, s.lastT, s.lastP = append([]byte{}, out...), s.valid, s.tamper, s.pre
 			buffers = append(buffers, out)
 			stats.Class("ws/encode")
-		case "decode", "decode-into":
+		case "decode", "decode-into", "copy-redecode":
 			src := pick(op.A)
 			if src == nil || src.last == nil {
 				continue
@@ -192,11 +222,33 @@ func checkWorkspace(c wsCase) error {
 			buf := append([]byte{}, src.last...)
 			buffers = append(buffers, buf)
 			var dst *wsSlot
-			if op.Op == "decode-into" {
+			if op.Op == "decode-into" || op.Op == "copy-redecode" {
 				dst = pick(op.B)
 				if dst == nil || dst.spec.Kind != src.spec.Kind {
 					continue
 				}
+			}
+			if op.Op == "copy-redecode" {
+				// the caller keeps what the variable holds as a value copy (parsed = append(parsed, msg))
+				// before the variable receives the next message: the copy is a message of its own
+				if len(slots) >= 8 || !dst.signed {
+					continue
+				}
+				cp := *dst
+				cp.m = &libMsg{kind: dst.m.kind}
+				switch {
+				case dst.m.s1 != nil:
+					v := *dst.m.s1
+					cp.m.s1 = &v
+				case dst.m.u1 != nil:
+					v := *dst.m.u1
+					cp.m.u1 = &v
+				default:
+					v := *dst.m.sm
+					cp.m.sm = &v
+				}
+				slots = append(slots, &cp)
+				stats.Class("ws/value-copy-before-variable-reuse")
 			}
 			if dst == nil {
 				if len(slots) >= 8 {
@@ -204,9 +256,12 @@ func checkWorkspace(c wsCase) error {
 				}
 				m, err := decodeLibFrom(src.spec.Kind, buf)
 				if err != nil {
-					return finding("C01:own-output-rejected", "step %d: the decoder rejects the encoder's output: %v\n%x", step, err, buf)
+					if e := fail("C01:own-output-rejected", "step %d: the decoder rejects the encoder's output: %v\n%x", step, err, buf); e != nil {
+						return e
+					}
+					continue
 				}
-				slots = append(slots, &wsSlot{m: m, spec: src.spec, ss: src.ss, vs: src.vs, signed: true, dec: true, valid: src.lastOK, tamper: src.lastT, pre: src.lastP, from: append([]byte{}, src.last...)})
+				slots = append(slots, &wsSlot{m: m, spec: src.spec, ss: src.ss, vs: src.vs, signed: true, dec: true, pure: true, valid: src.lastOK, tamper: src.lastT, pre: src.lastP, from: append([]byte{}, src.last...)})
 				stats.Class("ws/decode")
 				break
 			}
@@ -220,17 +275,25 @@ func checkWorkspace(c wsCase) error {
 				derr = dst.m.sm.UnmarshalCBOR(buf)
 			}
 			if derr != nil {
-				return finding("C01:own-output-rejected", "step %d: the decoder rejects the encoder's output (decoding into a used variable): %v\n%x", step, derr, buf)
+				if e := fail("C01:own-output-rejected", "step %d: the decoder rejects the encoder's output (decoding into a used variable): %v\n%x", step, derr, buf); e != nil {
+					return e
+				}
+				return nil // the variable's state is undefined from here on
 			}
 			fresh, err := decodeLib(src.spec.Kind, src.last)
 			if err != nil {
-				return finding("C01:own-output-rejected", "step %d: %v", step, err)
+				if e := fail("C01:own-output-rejected", "step %d: %v", step, err); e != nil {
+					return e
+				}
+				return nil
 			}
 			if a, b := bridge.DumpValue(dst.m.s1)+bridge.DumpValue(dst.m.u1)+bridge.DumpValue(dst.m.sm), bridge.DumpValue(fresh.s1)+bridge.DumpValue(fresh.u1)+bridge.DumpValue(fresh.sm); a != b {
-				return finding("C19:history-dependent", "step %d: decoding into a used variable gives another value than decoding into a fresh one\nused =%s\nfresh=%s", step, a, b)
+				if e := fail("C19:history-dependent", "step %d: decoding into a used variable gives another value than decoding into a fresh one\nused =%s\nfresh=%s", step, a, b); e != nil {
+					return e
+				}
 			}
 			dst.spec, dst.ss, dst.vs = src.spec, src.ss, src.vs
-			dst.dec, dst.pEdit, dst.uEdit = true, 0, 0
+			dst.dec, dst.pure, dst.pEdit, dst.uEdit = true, true, 0, 0
 			dst.signed, dst.valid, dst.from, dst.tamper, dst.pre = true, src.lastOK, append([]byte{}, src.last...), src.lastT, src.lastP
 			dst.last = nil
 			stats.Class("ws/decode-into-used-variable")
@@ -240,6 +303,7 @@ func checkWorkspace(c wsCase) error {
 				continue
 			}
 			edits++
+			s.pure = false
 			h := s.m.headers()
 			inPlace := op.B%2 == 1 // the caller writes into the map it was handed instead of installing a new one
 			var others []string
@@ -256,6 +320,17 @@ func checkWorkspace(c wsCase) error {
 					np[k] = v
 				}
 				np["ws-edit"] = int64(edits)
+				if op.B%4 >= 2 {
+					// ... and names another algorithm (a relay re-issuing the message under its own key)
+					if a, ok := np[int64(1)].(cose.Algorithm); ok {
+						if a == cose.AlgorithmES256 {
+							np[int64(1)] = cose.AlgorithmEdDSA
+						} else {
+							np[int64(1)] = cose.AlgorithmES256
+						}
+						stats.Class("ws/edit-protected-algorithm")
+					}
+				}
 				s.pEdit = edits
 				h.Protected = np
 				if s.dec {
@@ -288,7 +363,9 @@ func checkWorkspace(c wsCase) error {
 					continue
 				}
 				if now := bridge.DumpValue(o.m.s1) + bridge.DumpValue(o.m.u1) + bridge.DumpValue(o.m.sm); now != others[i] {
-					return finding("C19:objects-share-state", "step %d: editing object %d (%s, in place: %v) changed object %d, which came out of another constructor / decoder call\nbefore=%s\n after=%s", step, op.A%len(slots), op.Op, inPlace, i, others[i], now)
+					if e := fail("C19:objects-share-state", "step %d: editing object %d (%s, in place: %v) changed object %d, which came out of another constructor / decoder call\nbefore=%s\n after=%s", step, op.A%len(slots), op.Op, inPlace, i, others[i], now); e != nil {
+						return e
+					}
 				}
 			}
 			if inPlace {
@@ -305,6 +382,7 @@ func checkWorkspace(c wsCase) error {
 				continue
 			}
 			(*p)[len(*p)/2] ^= 0x20
+			s.pure = false
 			if !s.tamper {
 				s.pre, s.valid, s.tamper = s.valid, false, true
 			} else {
@@ -320,7 +398,7 @@ func checkWorkspace(c wsCase) error {
 			for _, p := range s.sigs() {
 				*p = nil
 			}
-			s.signed, s.valid, s.tamper, s.from = false, false, false, nil
+			s.signed, s.valid, s.tamper, s.from, s.pure = false, false, false, nil, false
 			if err := s.m.sign(s.spec.Ext(), s.ss...); err != nil {
 				for _, p := range s.sigs() {
 					*p = nil
@@ -344,7 +422,9 @@ func checkWorkspace(c wsCase) error {
 			}
 			for i, s := range slots {
 				if after := bridge.Dump(s.m.s1) + bridge.Dump(s.m.u1) + bridge.Dump(s.m.sm); after != before[i] {
-					return finding("C19:aliases-caller-buffer", "step %d: overwriting a buffer the caller owns (an earlier decoder input or encoder output) changed object %d\nbefore=%s\n after=%s", step, i, before[i], after)
+					if e := fail("C19:aliases-caller-buffer", "step %d: overwriting a buffer the caller owns (an earlier decoder input or encoder output) changed object %d\nbefore=%s\n after=%s", step, i, before[i], after); e != nil {
+						return e
+					}
 				}
 			}
 			stats.Class("ws/scribble")
@@ -358,6 +438,8 @@ func checkWorkspace(c wsCase) error {
 	}
 	return nil
 }
+
+func checkWorkspace(c wsCase) error { return checkWorkspaceFor(c, "") }
 
 // decodeLibFrom decodes from the caller's own buffer (no private copy).
 func decodeLibFrom(kind refcose.Kind, buf []byte) (*libMsg, error) {
@@ -407,8 +489,12 @@ func genWorkspace(t *rapid.T) wsCase {
 		c.Specs = append(c.Specs, spec)
 	}
 	c.Ops = append(c.Ops, wsOp{Op: "new"}, wsOp{Op: "sign"})
+	if len(c.Specs) >= 2 && rapid.IntRange(0, 2).Draw(t, "prelude") == 0 {
+		// two signed and encoded objects, each decoded once: objects 2 and 3 are decoded siblings
+		c.Ops = append(c.Ops, wsOp{Op: "encode"}, wsOp{Op: "new", A: 1}, wsOp{Op: "sign", A: 1}, wsOp{Op: "encode", A: 1}, wsOp{Op: "decode", A: 0}, wsOp{Op: "decode", A: 1})
+	}
 	names := []string{"new", "sign", "sign", "encode", "encode", "decode", "decode", "decode-into", "decode-into", "edit-protected", "edit-payload", "edit-unprotected",
-		"tamper", "tamper", "re-sign", "scribble", "churn"}
+		"tamper", "tamper", "re-sign", "scribble", "churn", "encode", "decode", "copy-redecode", "copy-redecode"}
 	k := rapid.IntRange(4, 24).Draw(t, "nops")
 	for i := 0; i < k; i++ {
 		c.Ops = append(c.Ops, wsOp{Op: rapid.SampledFrom(names).Draw(t, "op"), A: rapid.IntRange(0, 7).Draw(t, "a"), B: rapid.IntRange(0, 7).Draw(t, "b")})
@@ -424,13 +510,9 @@ func runWorkspace(t *testing.T, prop_ string) {
 		c := genWorkspace(rt)
 		stats.Eval()
 		judge(rt, "ws", c, func(c wsCase) error {
-			err := safely(func() error { return checkWorkspace(c) })
-			if f, ok := err.(*Finding); ok {
-				if !strings.HasPrefix(f.Key, prop_+":") && f.Key != "panic" {
-					stats.Class("ws/finding-of-another-property-left-to-its-own-run")
-					return nil
-				}
-				return &Finding{Key: "workspace/" + strings.TrimPrefix(f.Key, prop_+":"), Msg: f.Msg}
+			err := safely(func() error { return checkWorkspaceFor(c, prop_) })
+			if f, ok := err.(*Finding); ok && f.Key != "panic" {
+				return &Finding{Key: "workspace/" + f.Key[strings.Index(f.Key, ":")+1:], Msg: f.Msg}
 			}
 			return err
 		})
@@ -449,6 +531,7 @@ func runWorkspace(t *testing.T, prop_ string) {
 
 func TestC01_Workspace(t *testing.T) { runWorkspace(t, "C01") }
 func TestC03_Workspace(t *testing.T) { runWorkspace(t, "C03") }
+func TestC07_Workspace(t *testing.T) { runWorkspace(t, "C07") }
 func TestC09_Workspace(t *testing.T) { runWorkspace(t, "C09") }
 func TestC19_Workspace(t *testing.T) { runWorkspace(t, "C19") }
 
